@@ -138,7 +138,7 @@ LookbehindsFixed(v) ==
     [] v.k \in {"cat", "alt", "cond"} -> LookbehindsFixed(v.a) /\ LookbehindsFixed(v.b)
     [] v.k \in {"rep", "cap", "grp", "anch"} -> LookbehindsFixed(v.a)
     [] v.k = "look"            -> /\ LookbehindsFixed(v.a) /\ LookbehindsFixed(v.x)
-                                  /\ (v.dir # "ahead" => FixedWidth(v.x))
+                                  /\ (v.dir # "ahead" => (FixedWidth(v.x) \/ ~WKnown(v.x)))
 \* WF: the value can be written as a pattern `re` accepts
 WF(v) == LookbehindsFixed(v) /\ NamesUnique(v)
 
